@@ -1,6 +1,6 @@
 CONSTANTS RollbackImports = TRUE
           Depth = 2
 SPECIFICATION Spec
-INVARIANTS ExampleTotal FailedCloneIsParent Verdicts
-PROPERTIES CloneIndependent SameAsSubmit
+INVARIANTS ExampleTotal Verdicts
+PROPERTIES CloneIndependent SameAsSubmit FailedCloneIsParent
 CHECK_DEADLOCK FALSE
